@@ -167,15 +167,46 @@ package lunarcontext
 
 // container/heap (trusted): Push hands the item to the queue's Push method and restores the heap order
 //@ ghost var gPushedItem *Item
+// ... and the queue's slice is a binary heap under Less (a strict weak order, lemmas above) ONLY as long as nothing
+// but container/heap rearranges it: gheap is the slice as the last container/heap operation left it.
+//@ ghost field memoryQueue.gheap []*Item
+//@ ghost func heapKept(q *memoryQueue) bool = q.queue == q.gheap && forall(j, 0, len(q.queue), q.queue[j] != nil)
 //@ extern heap.Push
 //@   params h, x
-//@   modifies gPushedItem, allof(memoryQueue.queue), now
+//@   modifies gPushedItem, allof(memoryQueue.queue), allof(memoryQueue.gheap), now
 //@   ensures typeis(x, *Item) ==> gPushedItem == x.(*Item)
+//@   ensures forall(m, *memoryQueue, old(heapKept(m)) ==> heapKept(m))
+//@ extern heap.Pop
+//@   modifies allof(memoryQueue.queue), allof(memoryQueue.gheap), now
+//@   ensures typeis(result, *Item) ==> result.(*Item) != nil
+//@   ensures forall(m, *memoryQueue, old(heapKept(m)) ==> heapKept(m))
+//@ extern heap.Remove
+//@   modifies allof(memoryQueue.queue), allof(memoryQueue.gheap), now
+//@   ensures forall(m, *memoryQueue, old(heapKept(m)) ==> heapKept(m))
 
 // the in-memory queue orders equal scores by the time of the Enqueue call
 //@ func (*memoryQueue).Enqueue
 //@   prop C06
 //@   mode seq
 //@   allocates Item
-//@   modifies gPushedItem, allof(memoryQueue.queue), now
+//@   requires heapKept(q)
+//@   modifies gPushedItem, allof(memoryQueue.queue), allof(memoryQueue.gheap), now
+//@   ensures[only-container-heap-rearranges-the-queue] heapKept(q)
 //@   ensures[stamped-at-enqueue] result == nil && gPushedItem != nil && gPushedItem.value == item && gPushedItem.score == priority && gPushedItem.timestamp >= old(now()) && gPushedItem.timestamp <= now()
+
+// Taking the head, and withdrawing a waiter that gave up (TTL): both go through container/heap, which keeps the order.
+//@ func (*memoryQueue).DequeueIfValueRelevant
+//@   prop C06
+//@   mode seq
+//@   requires q != nil && heapKept(q)
+//@   modifies allof(memoryQueue.queue), allof(memoryQueue.gheap), now
+//@   ensures[only-container-heap-rearranges-the-queue] heapKept(q)
+
+//@ func (*memoryQueue).Remove
+//@   prop C06
+//@   mode seq
+//@   requires q != nil && heapKept(q)
+//@   modifies allof(memoryQueue.queue), allof(memoryQueue.gheap), now
+//@   loop 1 modifies allof(memoryQueue.queue), allof(memoryQueue.gheap), now
+//@   loop 1 invariant[kept] heapKept(q)
+//@   ensures[only-container-heap-rearranges-the-queue] heapKept(q)
